@@ -51,6 +51,10 @@ BASIS = ATOMS + SMALL_CONTAINERS
 INFER_ONLY_CASES = [
     ["Dup1()", "Dup2()"], ["Dup2()", "Dup1()", "Dup1()"], ["[Dup1()]", "[Dup2()]"], ["[Dup1(), Dup2()]"], ["{'a': Dup1()}", "{'a': Dup2()}"],
     ["{1: Dup1()}", "{1: Dup2()}"], ["(Dup1(),)", "(Dup2(),)"], ["Dup1", "Dup2"], ["{'a': Dup1(), 'b': 1}", "{'a': Dup2(), 'b': 1}"],
+    # large containers whose odd element comes late (beyond any inspection cut-off a tracer might be tempted to use)
+    ["list(range(1200)) + ['tail']"], ["set(range(1200)) | {'s'}"], ["dict({i: i for i in range(1200)}, late='s')"], ["{**{i: i for i in range(1200)}, 5000: None}"],
+    ["defaultdict(int, {**{i: i for i in range(1200)}, 'k': 1.5})"], ["[list(range(1100)) + [None]]", "[1]"], ["{'a': list(range(1500)) + [A()]}"],
+    ["[0] * 5000 + [[]]"], ["tuple(range(40)) + ('s',)"], ["[{'a': 1}] * 1100 + [{'b': 's'}]"],
     ["[{'a': Dup1()}, {'a': Dup2()}]"], ["{'k': [Dup1()]}", "{'k': [Dup2()]}"], ["Dup1()", "Dup2()", "1"], ["defaultdict(int, {'a': Dup1()})", "defaultdict(int, {'a': Dup2()})"],
 ]
 
